@@ -1,0 +1,48 @@
+// Copyright 2022 The Mellium Contributors.
+// Use of this source code is governed by the BSD 2-clause
+// license that can be found in the LICENSE file.
+
+// Package respiter builds iterators over the responses handed out by a
+// session.
+package respiter // import "mellium.im/xmpp/internal/respiter"
+
+import (
+	"encoding/xml"
+	"io"
+
+	"mellium.im/xmlstream"
+)
+
+// New returns an iterator over the children of the most recent start element
+// consumed from the response r.
+//
+// The session that handed out r cannot read anything else until r has been
+// closed, but xmlstream.Iter.Close does not close its reader if draining it
+// fails (the response is not well formed, or the stream ended in the middle of
+// it) and does nothing at all when called again: the reader returned here
+// closes the response as soon as reading it fails.
+func New(r xmlstream.TokenReadCloser) *xmlstream.Iter {
+	return xmlstream.NewIter(&response{r: r})
+}
+
+type response struct {
+	r      xmlstream.TokenReadCloser
+	closed bool
+}
+
+func (r *response) Token() (xml.Token, error) {
+	tok, err := r.r.Token()
+	if err != nil && err != io.EOF {
+		/* #nosec */
+		r.Close()
+	}
+	return tok, err
+}
+
+func (r *response) Close() error {
+	if r.closed {
+		return nil
+	}
+	r.closed = true
+	return r.r.Close()
+}
